@@ -178,7 +178,7 @@ struct Problem
 
 // Draws a problem for the family: matrix recipe, (nev, ncv), shift (placed >= 1 % of the spectral radius from every eigenvalue)
 template <typename Real>
-inline Problem<Real> draw_problem(Draw& d, int family, Index nmax)
+inline Problem<Real> draw_problem(Draw& d, int family, Index nmax, int extreme_one_in = 0)
 {
     typedef std::complex<Real> Cplx;
     Problem<Real> P;
@@ -206,6 +206,22 @@ inline Problem<Real> draw_problem(Draw& d, int family, Index nmax)
         Eigen::SelfAdjointEigenSolver<CMatL> es(CMatL(R.A / cld(R.scale)), Eigen::EigenvaluesOnly);
         for (Index i = 0; i < P.n; i++)
             P.ref_ev.push_back(cld(es.eigenvalues()[i] * R.scale, 0));
+    }
+    // Extreme scales (plain families only, on request): a matrix that is perfectly representable while the SQUARES of its entries and
+    // eigenvalues leave the floating-point range (1e+-150..250 in double / long double, 1e20..1e30 in float). Anything in the library that
+    // forms |z|^2, x*x or an unscaled norm on the way to a result turns into 0 / inf / a tie there.
+    if (extreme_one_in > 0 && !family_has_shift(family) && d.one_in("extreme_scale", extreme_one_in))
+    {
+        const bool is_float = std::is_same<Real, float>::value;
+        const bool huge = is_float ? true : d.flag("extreme_huge");
+        const long e = is_float ? d.range("extreme_exp", 20, 30) : d.range("extreme_exp", 150, 250);
+        const ld f = std::pow((ld) 10, (ld) (huge ? e : -e));
+        P.A *= cld(f);
+        for (cld& l : P.ref_ev)
+            l *= f;
+        P.scale *= f;
+        P.scale_exp += huge ? e : -e;
+        P.cls += huge ? "+extreme_huge" : "+extreme_tiny";
     }
     P.normA = fro_scaled(P.A);
     draw_nev_ncv(d, P.n, family_is_general(family), P.nev, P.ncv);
